@@ -33,3 +33,12 @@ Fixpoint slots (b : buffer) (lo : Z) (n : nat) : payload :=
 (* store a payload of n blocks of size sz into consecutive slots *)
 Fixpoint store (b : buffer) (lo : Z) (n : nat) (sz : nat) (m : payload) : buffer :=
   match n with O => b | S k => store (upd b lo (firstn sz m)) (lo + 1) k sz (skipn sz m) end.
+
+(* one communication window: all sends of the window, then its receives (the C code posts them in some order
+   and completes them together with Waitall; buffers are not touched in between) *)
+Fixpoint do_sends (l : list (Z * Z * payload)) (k : prog) : prog :=
+  match l with [] => k | (d, t, m) :: r => send d t m (do_sends r k) end.
+Fixpoint do_recvs (l : list (Z * Z)) (acc : list payload) (k : list payload -> prog) : prog :=
+  match l with [] => k (rev acc) | (s, t) :: r => recv s t (fun m => do_recvs r (m :: acc) k) end.
+Definition phase (S : list (Z * Z * payload)) (R : list (Z * Z)) (k : list payload -> prog) : prog :=
+  do_sends S (do_recvs R [] k).
